@@ -1,6 +1,6 @@
 use std::collections::HashSet;
 
-use indexmap::IndexMap;
+use indexmap::{IndexMap, IndexSet};
 
 use crate::dynamic::{
     InputObject, Interface, Object, SchemaError, Type,
@@ -175,7 +175,7 @@ impl SchemaInner {
                         let interface = ty.as_interface().ok_or_else(|| {
                             format!("Type \"{}\" is not interface", interface_name)
                         })?;
-                        check_is_valid_implementation(obj, interface)?;
+                        check_is_valid_implementation(&self.types, obj, &obj.implements, interface)?;
                     }
                 }
             }
@@ -337,7 +337,12 @@ impl SchemaInner {
                             let implemenented_type = ty.as_interface().ok_or_else(|| {
                                 format!("Type \"{}\" is not interface", interface_name)
                             })?;
-                            check_is_valid_implementation(interface, implemenented_type)?;
+                            check_is_valid_implementation(
+                                &self.types,
+                                interface,
+                                &interface.implements,
+                                implemenented_type,
+                            )?;
                         }
                     }
                 }
@@ -373,10 +378,62 @@ impl SchemaInner {
     }
 }
 
-fn check_is_valid_implementation(
-    implementing_type: &impl BaseContainer,
+/// https://spec.graphql.org/October2021/#IsValidImplementationFieldType()
+fn is_valid_implementation_field_type(
+    types: &IndexMap<String, Type>,
+    field_type: &TypeRef,
+    implemented_field_type: &TypeRef,
+) -> bool {
+    match (field_type, implemented_field_type) {
+        (TypeRef::NonNull(ty), TypeRef::NonNull(implemented)) => {
+            is_valid_implementation_field_type(types, ty, implemented)
+        }
+        (TypeRef::NonNull(ty), implemented) => {
+            is_valid_implementation_field_type(types, ty, implemented)
+        }
+        (TypeRef::List(ty), TypeRef::List(implemented)) => {
+            is_valid_implementation_field_type(types, ty, implemented)
+        }
+        (TypeRef::Named(name), TypeRef::Named(implemented)) => {
+            name == implemented
+                || match (types.get(name.as_ref()), types.get(implemented.as_ref())) {
+                    (Some(Type::Object(obj)), Some(Type::Union(union))) => {
+                        union.possible_types.contains(&obj.name)
+                    }
+                    (Some(Type::Object(obj)), Some(Type::Interface(interface))) => {
+                        obj.implements.contains(&interface.name)
+                    }
+                    (Some(Type::Interface(ty)), Some(Type::Interface(interface))) => {
+                        ty.implements.contains(&interface.name)
+                    }
+                    _ => false,
+                }
+        }
+        _ => false,
+    }
+}
+
+fn check_is_valid_implementation<T: BaseContainer>(
+    types: &IndexMap<String, Type>,
+    implementing_type: &T,
+    implements: &IndexSet<String>,
     implemented_type: &Interface,
 ) -> Result<(), SchemaError> {
+    // If implementedType declares it implements any interfaces, type must also
+    // declare it implements those interfaces.
+    for interface_name in &implemented_type.implements {
+        if !implements.contains(interface_name) {
+            return Err(format!(
+                "{} \"{}\" must also implement \"{}\", which is implemented by interface \"{}\"",
+                implementing_type.graphql_type(),
+                implementing_type.name(),
+                interface_name,
+                implemented_type.name
+            )
+            .into());
+        }
+    }
+
     for field in implemented_type.fields.values() {
         let impl_field = implementing_type.field(&field.name).ok_or_else(|| {
             format!(
@@ -388,30 +445,28 @@ fn check_is_valid_implementation(
             )
         })?;
 
+        // field must include an argument of the same name for every argument
+        // defined in implementedField, and that argument must accept the same
+        // type (invariant)
         for arg in field.arguments.values() {
-            let impl_arg = match impl_field.argument(&arg.name) {
-                Some(impl_arg) => impl_arg,
-                None if !arg.ty.is_nullable() => {
-                    return Err(format!(
-                        "Field \"{}.{}\" requires argument \"{}\" defined by interface \"{}.{}\"",
-                        implementing_type.name(),
-                        field.name,
-                        arg.name,
-                        implemented_type.name,
-                        field.name,
-                    )
-                    .into());
-                }
-                None => continue,
-            };
-
-            if !arg.ty.is_subtype(&impl_arg.ty) {
-                return Err(format!(
-                    "Argument \"{}.{}.{}\" is not sub-type of \"{}.{}.{}\"",
-                    implemented_type.name,
+            let impl_arg = impl_field.argument(&arg.name).ok_or_else(|| {
+                format!(
+                    "Field \"{}.{}\" requires argument \"{}\" defined by interface \"{}.{}\"",
+                    implementing_type.name(),
                     field.name,
                     arg.name,
+                    implemented_type.name,
+                    field.name,
+                )
+            })?;
+
+            if arg.ty != impl_arg.ty {
+                return Err(format!(
+                    "Argument \"{}.{}.{}\" must have the same type as \"{}.{}.{}\"",
                     implementing_type.name(),
+                    field.name,
+                    arg.name,
+                    implemented_type.name,
                     field.name,
                     arg.name
                 )
@@ -419,9 +474,28 @@ fn check_is_valid_implementation(
             }
         }
 
+        // field may include additional arguments not defined in implementedField,
+        // but any additional argument must not be required
+        for impl_arg in impl_field.arguments().values() {
+            if !field.arguments.contains_key(&impl_arg.name)
+                && !impl_arg.ty.is_nullable()
+                && impl_arg.default_value.is_none()
+            {
+                return Err(format!(
+                    "Argument \"{}.{}.{}\" is not defined by interface \"{}.{}\" and must not be required",
+                    implementing_type.name(),
+                    field.name,
+                    impl_arg.name,
+                    implemented_type.name,
+                    field.name,
+                )
+                .into());
+            }
+        }
+
         // field must return a type which is equal to or a sub-type of (covariant) the
         // return type of implementedField field’s return type
-        if !impl_field.ty().is_subtype(&field.ty) {
+        if !is_valid_implementation_field_type(types, impl_field.ty(), &field.ty) {
             return Err(format!(
                 "Field \"{}.{}\" is not sub-type of \"{}.{}\"",
                 implementing_type.name(),
